@@ -1079,7 +1079,7 @@ def extract_function(repo, spec, cfg, rw=None):
         if prev[-1] not in ';{}' or frag.count('{') != frag.count('}'):
             raise ExtractError('%s: fragment is not a balanced statement sequence' % spec['name'])
         nl_before = body_src[:ms[0].start()].count('\n')
-        body_src = '{' + '\n' * nl_before + frag + '}'
+        body_src = '{' + '\n' * nl_before + frag + fr.get('tail', '') + '}'
         rw.fire('R16')
     for pat, repl, cnt in spec.get('pre_subs', []):
         body_src, n = re.subn(pat, lambda m_: (repl(m_) if callable(repl) else repl) + '\n' * m_.group(0).count('\n'), body_src, flags=re.S)
